@@ -394,6 +394,40 @@ def _ph_spec(cfg, i, path):
     return True
 
 
+
+# ------------------------------------------------------------------ composite parameters (a JSON path with variables is ONE bound value): each occurrence gets ITS path
+CP_ITEMS = {'x': ['VALUE', 'x'], 'y': ['VALUE', 'y'], '1': ['VALUE', 1], 'k0': ['PARAM', ('k0', None, None)], 'k1': ['PARAM', ('k1', None, None)]}
+CP_VALUES = {'k0': 'os', 'k1': 2}
+
+
+def _cp_configs(tier):
+    import itertools
+    paths = [p for n in (1, 2) for p in itertools.product(CP_ITEMS, repeat=n) if any(i.startswith('k') for i in p)]
+    out = [dict(paths=(a,)) for a in paths] + [dict(paths=(a, b)) for a in paths for b in paths]
+    if tier == 'thorough': out += [dict(paths=(a, b, c)) for a in paths[::2] for b in paths[::3] for c in paths[1::4]]
+    return out
+
+
+def _cp_case(cfg, values):
+    def call():
+        from pony.orm.dbproviders import sqlite as sq
+        prov = type('P', (), dict(paramstyle='qmark', quote_name=lambda self, n: '"%s"' % n, json1_available=True))()
+        ast = ['ROW'] + [['JSON_QUERY', ['COLUMN', 't', 'c'], [CP_ITEMS[i] for i in path]] for path in cfg['paths']]
+        b = sq.SQLiteBuilder(prov, ast)
+        return b.sql, b.adapter(dict(CP_VALUES))
+    return Case(call, {}, [])
+
+
+def _cp_spec(cfg, i, path):
+    if path.outcome != 'ret': return False
+    sql, args = path.value
+    want = []
+    for pth in cfg['paths']:
+        vals = [CP_VALUES[i] if i.startswith('k') else (1 if i == '1' else i) for i in pth]
+        want.append('$' + ''.join('[%d]' % v if isinstance(v, int) else '.' + v for v in vals))
+    return sql.count('?') == len(cfg['paths']) and tuple(args) == tuple(want)
+
+
 CONTRACTS = [
     Contract('Value.quote_str', ['pony.orm.sqlbuilding:Value.quote_str', 'pony.orm.sqlbuilding:Value.__str__', 'pony.orm.dbproviders.sqlite:SQLiteValue.__str__',
                                  'pony.orm.dbproviders.postgres:PGValue.__str__', 'pony.orm.dbproviders.mysql:MySQLValue.__str__'],
@@ -414,4 +448,8 @@ CONTRACTS = [
                                          'pony.orm.sqlbuilding:Param.eval'],
              _ph_configs, _ph_case, [('each_placeholder_receives_its_keys_value', _ph_spec)], level='bounded',
              bound='<= 4 (quick) / 5 (thorough) PARAM occurrences, every partition of occurrences into keys, all five paramstyles'),
+    Contract('SQLBuilder.composite_params', ['pony.orm.sqlbuilding:SQLBuilder.build_json_path', 'pony.orm.sqlbuilding:SQLBuilder.make_composite_param', 'pony.orm.sqlbuilding:SQLBuilder.make_param',
+                                             'pony.orm.sqlbuilding:SQLBuilder.eval_json_path'], _cp_configs, _cp_case,
+             [('each_placeholder_receives_the_path_written_at_its_place', _cp_spec)], level='bounded',
+             bound='statements with 1 - 2 (thorough: 3) JSON paths of <= 2 items out of 3 constants and 2 variables, at least one variable per path'),
 ]
